@@ -29,8 +29,8 @@ Definition mux_mode (mode : Z) : option selfn :=
 
 Lemma track_th_input_chan_mux b i sel inp sx st o f : track_at st (Some (b, i)) = Some o -> mux_mode (tk_mode o) = Some f ->
   G.track_th_input_chan (Some (b, i)) sel inp sx st =
-  bind_ (mux_init (Some (b, i)) (tk_bay o) sel (Some (ATrk b i)) (Some f) 1)
-        (bind_ (set_track_out (Some (b, i)) (fun _ _ => Some (ATrk b i))) (mux_set_input (Some (b, i)) 0 inp)) sx st.
+  bind_ (mux_init (Some (MTrk b i)) (tk_bay o) sel (Some (ATrk b i)) (Some f) 1)
+        (bind_ (set_track_out (Some (b, i)) (fun _ _ => Some (ATrk b i))) (mux_set_input (Some (MTrk b i)) 0 inp)) sx st.
 Proof.
   intros Ht Hm. unfold G.track_th_input_chan, G.track_set_select, G.track_set_input. munf.
   unfold get_track__mode, get_track__bay, addr_track_mux, addr_track_ch. rewrite Ht. cbn [is_null negb].
@@ -41,13 +41,13 @@ Proof.
   change G.c_TRACK_TH_RUN with TRACK_RUN. change G.c_TRACK_TH_ACT with TRACK_ACT.
   destruct (tk_mode o =? TRACK_RUN) eqn:E1.
   - injection Hm as <-. unfold fn_thread_select_running. cbv iota beta. unfold get_track__bay. rewrite Ht.
-    destruct (mux_init (Some (b, i)) (tk_bay o) sel (Some (ATrk b i)) (Some FRunning) 1 sx st) as [[[] st1]|]; [|reflexivity].
+    destruct (mux_init (Some (MTrk b i)) (tk_bay o) sel (Some (ATrk b i)) (Some FRunning) 1 sx st) as [[[] st1]|]; [|reflexivity].
     destruct (set_track_out (Some (b, i)) (fun _ _ => Some (ATrk b i)) sx st1) as [[[] st2]|]; [|reflexivity].
-    destruct (mux_set_input (Some (b, i)) 0 inp sx st2) as [[[] st3]|]; reflexivity.
+    destruct (mux_set_input (Some (MTrk b i)) 0 inp sx st2) as [[[] st3]|]; reflexivity.
   - destruct (tk_mode o =? TRACK_ACT) eqn:E2; [|discriminate]. injection Hm as <-. unfold fn_thread_select_active. cbv iota beta. unfold get_track__bay. rewrite Ht.
-    destruct (mux_init (Some (b, i)) (tk_bay o) sel (Some (ATrk b i)) (Some FActive) 1 sx st) as [[[] st1]|]; [|reflexivity].
+    destruct (mux_init (Some (MTrk b i)) (tk_bay o) sel (Some (ATrk b i)) (Some FActive) 1 sx st) as [[[] st1]|]; [|reflexivity].
     destruct (set_track_out (Some (b, i)) (fun _ _ => Some (ATrk b i)) sx st1) as [[[] st2]|]; [|reflexivity].
-    destruct (mux_set_input (Some (b, i)) 0 inp sx st2) as [[[] st3]|]; reflexivity.
+    destruct (mux_set_input (Some (MTrk b i)) 0 inp sx st2) as [[[] st3]|]; reflexivity.
 Qed.
 
 (* any other mode is refused *)
